@@ -242,6 +242,8 @@ type PathCtx struct {
 	goQueue       []goTask
 	Stubs         map[string]bool
 	NondetMaps    bool
+	TrackMutex    bool // sync.Mutex / RWMutex keep their lock state (sym.TrackMutexes)
+	mutexes       map[*value]int
 	YieldOnWG     bool // sync.WaitGroup.Wait yields to the environment (tag "wg")
 	RandExtremes  bool // math/rand.Intn(n) explores only 0 and n-1
 	IntMode       bool
